@@ -70,7 +70,7 @@ Proof.
 Qed.
 
 Theorem gen_try_parse_response_eq slots input :
-  gen_try_parse_response (hp_of (fst (parse_response slots input))) (hv_version (snd (parse_response slots input)))
+  gen_try_parse_response input (hp_of (fst (parse_response slots input))) (hv_version (snd (parse_response slots input)))
     (hv_code (snd (parse_response slots input))) (hv_headers (snd (parse_response slots input)))
   = try_parse_response slots input.
 Proof.
@@ -90,7 +90,7 @@ Qed.
 (* ------------------------------------------------------------------ the request parser *)
 
 Theorem gen_try_parse_request_eq slots input :
-  gen_try_parse_request (hp_of (fst (parse_request slots input))) (hq_version (snd (parse_request slots input)))
+  gen_try_parse_request input (hp_of (fst (parse_request slots input))) (hq_version (snd (parse_request slots input)))
     (hq_method (snd (parse_request slots input))) (hq_headers (snd (parse_request slots input)))
   = try_parse_request slots input.
 Proof.
@@ -178,9 +178,9 @@ Qed.
 
 (* ------------------------------------------------------------------ the partial response parser *)
 
-Lemma gen_partial_ok s ver code hs :
+Lemma gen_partial_ok input s ver code hs :
   (forall x, ver = Some x -> x = 0 \/ x = 1) -> Forall (fun h : header => fst h <> []) hs ->
-  gen_try_parse_partial_response (HpOk s) ver code hs =
+  gen_try_parse_partial_response input (HpOk s) ver code hs =
   match ver with
   | None => Ok None
   | Some ve =>
@@ -207,7 +207,7 @@ Proof.
 Qed.
 
 Theorem gen_try_parse_partial_response_eq slots input :
-  gen_try_parse_partial_response (hp_of (fst (parse_response slots input))) (hv_version (snd (parse_response slots input)))
+  gen_try_parse_partial_response input (hp_of (fst (parse_response slots input))) (hv_version (snd (parse_response slots input)))
     (hv_code (snd (parse_response slots input))) (hv_headers (snd (parse_response slots input)))
   = try_parse_partial_response slots input.
 Proof.
